@@ -99,6 +99,9 @@ def alphabet(n, subs, rich=True):
     for i, ou in [(0, 0), (1, n - 1), (n - 1, 1)]:
         o.append(("her", 1, i, ou))
     o.append(("bsnp", 1, n - 1))         # numpy-integer mode numbers are accepted like ints
+    o.append(("her", 1, 1, n - 1, "np"))  # ... also as herald modes
+    for nm in subs[:4]:
+        o.append(("add", nm, 1, False, "np"))   # ... and as the position of an addition
     o.append(("her1", 1, n - 1))         # single-mode form: output defaults to the input mode
     if rich:
         o.append(("her", 0, 0, 1))
@@ -118,7 +121,7 @@ def run_program(n, prog, env, acc, sub_factory=make_sub):
             fp_s = full_fingerprint(s)
             fp_p = full_fingerprint(P) if not valid else None
             try:
-                P.add(s, op[2], group=op[3])
+                P.add(s, np.int64(op[2]) if len(op) > 4 else op[2], group=op[3])
                 err = None
             except lw.ModeRangeError as e:
                 err = e
@@ -179,7 +182,10 @@ def run_program(n, prog, env, acc, sub_factory=make_sub):
             valid = R.can_herald(op[2], op[3])
             fp_p = full_fingerprint(P) if not valid else None
             try:
-                P.herald(op[1], op[2], op[3])
+                if len(op) > 4:
+                    P.herald(op[1], np.int64(op[2]), np.int32(op[3]))
+                else:
+                    P.herald(op[1], op[2], op[3])
                 ok = True
             except (ValueError, lw.ModeRangeError):
                 ok = False
